@@ -187,7 +187,7 @@ func DecodeTypeSize(b []byte) (format.Type, int, error) {
 
 		// Data size
 		dataSize, m := decodeSize(b[:end])
-		if n < 0 {
+		if m < 0 {
 			return 0, 0, errors.New("decode struct: invalid data size")
 		}
 
@@ -213,5 +213,9 @@ func decodeType(b []byte) (format.Type, int) {
 }
 
 func decodeSize(b []byte) (uint32, int) {
-	return compactint.ReverseUint32(b)
+	v, n := compactint.ReverseUint32(b)
+	if n == 0 {
+		return 0, -1 // missing or truncated size
+	}
+	return v, n
 }
